@@ -469,14 +469,19 @@ def post_release_bound_in_marker(v) -> bool:
 def packaging_accepts_what_version_rejects(v) -> bool:
     """F25: packaging's specifier regex is matched case-insensitively in unicode mode, so an operand like
     `1.0.poſt1` (LATIN SMALL LETTER LONG S) passes SpecifierSet() although packaging.version.Version
-    rejects it; dep-logic then leaks that InvalidVersion.  Explained iff the outcome is an InvalidVersion AND
-    packaging's own Version() rejects the operand of some clause of the text (the reference contradicts itself)."""
+    rejects it; no specifier can be returned for it.  Explained iff the outcome is InvalidSpecifier / an
+    InvalidVersion AND packaging's own Version() rejects the operand of some clause of the text (the reference contradicts itself)."""
     from packaging.specifiers import SpecifierSet
     from packaging.version import InvalidVersion, Version
 
     d = v["detail"]
     blob = str(d.get("outcome", "")) + str(d.get("error", "")) + str(v.get("what", ""))
-    if "InvalidVersion" not in blob:
+    # parse_version_specifier: InvalidSpecifier for a text SpecifierSet accepts (since the F25a repair; the
+    # InvalidVersion leak before it); from_specifierset on such an object: InvalidVersion
+    if v.get("monitor") == "from_specifierset":
+        if "InvalidVersion" not in blob:
+            return False
+    elif d.get("outcome") != "invalid":   # a leaked InvalidVersion (repaired as F25a) is reported again
         return False
     text = (v.get("case") or {}).get("text") or d.get("text") or ""
     try:
